@@ -24,6 +24,7 @@ func ruleC04(prog *Program, rep *Report) {
 	ruleSeparator(prog, rep)
 	ruleTail(prog, rep, 12, "oj")
 	rulePadBound(prog, rep)
+	ruleFlatSeparator(prog, rep)
 	// a Writer shared through the pool or left half-configured by the previous call does not emit the text of the in-memory call
 	rulePoolPut(prog, rep, "oj.Writer", "pretty.Writer")
 	ruleReturnAlias(prog, rep, "C04", "oj", "pretty")
@@ -639,4 +640,74 @@ func padOperandGuard(info *types.Info, fd *ast.FuncDecl, pos token.Pos) string {
 		return true
 	})
 	return missing
+}
+
+// ruleFlatSeparator: W-flatsep. pretty.Writer.fill chooses per container between the one-line
+// ("flat") form, whose element separator cs is a space, and the multi-line form, whose
+// separator is a newline plus indentation cut from the spaces string. When that string is too
+// short for the depth it falls back: `flat = true`. Wherever flat is set to true after cs was
+// decided, cs has to be set in the same statement list, otherwise the flat form is written with
+// no separator at all (SEN: `[12]` for `[1 2]`).
+func ruleFlatSeparator(prog *Program, rep *Report) {
+	rep.Rules = append(rep.Rules, "W-flatsep: in pretty.Writer.fill every assignment flat = true that sits inside the else branch of `if flat { cs = ... }` (the late fall-back to the one-line form) is accompanied, in the same statement list, by an assignment of the element separator cs")
+	pk := prog.Pkg("pretty")
+	if pk == nil {
+		rep.Errorf("W-flatsep: package pretty not loaded")
+		return
+	}
+	fd, _ := prog.FuncDecl(Method(pk, "Writer", "fill"))
+	if fd == nil {
+		rep.Errorf("W-flatsep: pretty.Writer.fill not found")
+		return
+	}
+	n := 0
+	ast.Inspect(fd.Body, func(k ast.Node) bool {
+		is, ok := k.(*ast.IfStmt)
+		if !ok || types.ExprString(is.Cond) != "flat" || is.Else == nil {
+			return true
+		}
+		ast.Inspect(is.Else, func(q ast.Node) bool {
+			var list []ast.Stmt
+			switch b := q.(type) {
+			case *ast.BlockStmt:
+				list = b.List
+			case *ast.CaseClause:
+				list = b.Body
+			default:
+				return true
+			}
+			setsFlat, setsCS := false, false
+			var pos token.Pos
+			for _, st := range list {
+				as, ok := st.(*ast.AssignStmt)
+				if !ok || len(as.Lhs) != 1 || len(as.Rhs) != 1 {
+					continue
+				}
+				switch types.ExprString(as.Lhs[0]) {
+				case "flat":
+					if types.ExprString(as.Rhs[0]) == "true" {
+						setsFlat = true
+						pos = as.Pos()
+					}
+				case "cs":
+					setsCS = true
+				}
+			}
+			if setsFlat {
+				n++
+				key := fmt.Sprintf("pretty.Writer.fill:late-flat#%d", n)
+				if setsCS {
+					rep.Discharge("W-flatsep", key, prog.Pos(pos), "cs is set with flat")
+				} else {
+					rep.Violate(Finding{Rule: "W-flatsep", Key: key, Pos: prog.Pos(pos), Msg: "fill falls back to the one-line form here without setting the element separator: at this depth SEN elements are written with nothing between them"})
+				}
+			}
+			return true
+		})
+		return true
+	})
+	rep.Eval(n)
+	if n < 2 {
+		rep.Errorf("W-flatsep found %d late fall-backs (floor 2)", n)
+	}
 }
